@@ -40,7 +40,7 @@ func init() {
 		Level:       "Static rules deciding named necessary conditions (no un-clamped look-ahead into the decompressed block, every access behind num < numDocs, the visitor's result alone controls the loop, writers and reader use the same block size). Partial: grouping/order of values and the re-encode arithmetic are value properties and not decided.",
 		Explanation: "LOOKAHEAD-CLAMP enumerates every []byte slice expression whose upper bound is offset+constant and requires the bound to be clamped by a comparison with len/cap of the same buffer (siblings copyStoredDocs and getDocStoredOffsets are both covered); VISIT-GUARD proves by dominance that every read and every visitor call in visitDocument is behind num < footer.numDocs and that the loop variable is defined only by the visitor's result; BLOCK-SELECT folds the constant passed to newChunkedDocumentCoder by both writers and the reader's divisor and requires them equal. ITER-SCRATCH shows that on every path through one document iteration the meta buffer is Reset and the data slice restarted before the record is added; SCRATCH-OWNED covers the decompression buffers.",
 		NotCovered:  "grouping and order of delivered values, correctness of the merge re-encode and of the byte-copy path arithmetic",
-		Uses:        []RuleUse{{"STALE-LEN", ""}, {"APPEND-RESULT-USED", ""}, {"TRAILER-ROLES", ""}, {"ITER-SCRATCH", ""}, {"SCRATCH-OWNED", ""}, {"LOOKAHEAD-CLAMP", ""}, {"VISIT-GUARD", ""}, {"BLOCK-SELECT", ""}, {"STORED-OFFSET-SOURCE", ""}, {"BLOCK-CURSOR", ""}, {"LOOP-BOUND-AGREE", ""}, {"RESET-COMPLETE", ""}, {"ESCAPE-FRESH", ""}},
+		Uses:        []RuleUse{{"STALE-LEN", ""}, {"APPEND-RESULT-USED", ""}, {"TRAILER-ROLES", ""}, {"ITER-SCRATCH", ""}, {"SCRATCH-LENT", ""}, {"SCRATCH-OWNED", ""}, {"LOOKAHEAD-CLAMP", ""}, {"VISIT-GUARD", ""}, {"BLOCK-SELECT", ""}, {"STORED-OFFSET-SOURCE", ""}, {"BLOCK-CURSOR", ""}, {"LOOP-BOUND-AGREE", ""}, {"RESET-COMPLETE", ""}, {"ESCAPE-FRESH", ""}},
 	})
 	prop(&Property{
 		ID:          "C08",
@@ -136,7 +136,7 @@ func init() {
 		Level:       "Static rules showing the pooled builder state cannot influence a later build and concurrent builds share nothing mutable: every field reset or entry-assigned, every re-extension exposes only sanitised/overwritten elements, escaping fields re-established fresh, Put only after a successful reset, map iteration order cannot reach the output, no global writes. Byte equality itself and determinism of dependencies are not decided.",
 		Explanation: "RESET-COMPLETE(interim) over all fields of the builder state; RE-EXTENSION over every s.F = s.F[:n] site of a pooled slice; ESCAPE-FRESH for the fields and bytes that escape into the returned Segment; POOL-DISCIPLINE for interimPool.Put; CARRIED-ESTIMATE shows the only deliberately surviving values reach nothing but a buffer size hint; MAP-ORDER shows every range over a map on the build/merge path has an order-insensitive body; NO-GLOBAL-STATE shows no function reachable from New writes package-level state.",
 		NotCovered:  "byte equality itself; determinism of vellum/roaring/zstd",
-		Uses:        []RuleUse{{"ITER-SCRATCH", ""}, {"RESET-COMPLETE", ""}, {"RE-EXTENSION", ""}, {"ESCAPE-FRESH", ""}, {"POOL-DISCIPLINE", ""}, {"CARRIED-ESTIMATE", ""}, {"NO-GLOBAL-STATE", ""}, {"MAP-ORDER", ""}},
+		Uses:        []RuleUse{{"ITER-SCRATCH", ""}, {"SCRATCH-LENT", ""}, {"RESET-COMPLETE", ""}, {"RE-EXTENSION", ""}, {"ESCAPE-FRESH", ""}, {"POOL-DISCIPLINE", ""}, {"CARRIED-ESTIMATE", ""}, {"NO-GLOBAL-STATE", ""}, {"MAP-ORDER", ""}},
 	})
 }
 
@@ -178,7 +178,7 @@ func init() {
 		Level:       "Static rules deciding named NECESSARY conditions: every document number written is the remapped one, location field ids use the merged map, doc values are re-added under new numbers and dropped ones skipped, the parallel per-iterator slices come from one filtered result, the byte-copy path is taken only for identical field lists without deletions, 1-hit encoding only under its full conjunction, chunk size from the footer quantities, terms inserted only with postings. Observational equality with a rebuild is a value property and is NOT decided.",
 		Explanation: "REMAP (mergeTermFreqNormLocs, buildMergedDocVals visitor, persistMergedRestField), CHUNK-AGREE (prepareNewTerm traced through its unique call chain to the values stored in the merged footer), LENPREFIX-AGREE, FASTPATH-GUARD (+ mergeFields compares every field of every segment), INSERT-GUARD, ONEHIT-GUARD, FIELD-ORDER (mergeFields), STORED-OFFSET-SOURCE, FIELDID-LANE, DV-SECTION-COMPLETE.",
 		NotCovered:  "k-way enumeration order, the re-encoding arithmetic, correctness of the stored-field byte copy (values)",
-		Uses:        []RuleUse{{"LOCS-FLAG-AGREE", ""}, {"STALE-LEN", ""}, {"APPEND-RESULT-USED", ""}, {"RANGE-INDEX-BASE", ""}, {"ITER-SCRATCH", ""}, {"REMAP", ""}, {"CHUNK-AGREE", ""}, {"LENPREFIX-AGREE", ""}, {"FASTPATH-GUARD", ""}, {"INSERT-GUARD", ""}, {"ONEHIT-GUARD", ""}, {"FIELD-ORDER", ""}, {"STORED-OFFSET-SOURCE", ""}, {"BLOCK-CURSOR", ""}, {"FIELDID-LANE", ""}, {"DV-SECTION-COMPLETE", ""}, {"PER-FIELD-COMPLETE", ""}, {"LOOP-BOUND-AGREE", ""}, {"PARALLEL-APPEND", ""}, {"REMAP-TABLE-READONLY", ""}, {"TERM-BOUNDARY", ""}, {"ENUM-SKIP-GUARD", ""}, {"RESET-COMPLETE", ""}},
+		Uses:        []RuleUse{{"LOCS-FLAG-AGREE", ""}, {"STALE-LEN", ""}, {"APPEND-RESULT-USED", ""}, {"RANGE-INDEX-BASE", ""}, {"ITER-SCRATCH", ""}, {"SCRATCH-LENT", ""}, {"REMAP", ""}, {"CHUNK-AGREE", ""}, {"LENPREFIX-AGREE", ""}, {"FASTPATH-GUARD", ""}, {"INSERT-GUARD", ""}, {"ONEHIT-GUARD", ""}, {"FIELD-ORDER", ""}, {"STORED-OFFSET-SOURCE", ""}, {"BLOCK-CURSOR", ""}, {"FIELDID-LANE", ""}, {"DV-SECTION-COMPLETE", ""}, {"PER-FIELD-COMPLETE", ""}, {"LOOP-BOUND-AGREE", ""}, {"PARALLEL-APPEND", ""}, {"REMAP-TABLE-READONLY", ""}, {"TERM-BOUNDARY", ""}, {"ENUM-SKIP-GUARD", ""}, {"RESET-COMPLETE", ""}},
 	})
 	prop(&Property{
 		ID:          "C07",
